@@ -14,7 +14,8 @@ def _setup(w):
     T, K, n, labels = int(nt['T']), int(nt['K']), int(nt['n']), [int(x) for x in nt['labels']]
     inp = w.get('inputs') or {}
     X = [[frac(inp.get('x_%d_%d' % (i, j), 0)) for j in range(n)] for i in range(T)]
-    data = np.array([[float(v) for v in row] for row in X])
+    data = np.array([[int(v) for v in row] for row in X], dtype=np.int64) if nt.get('data_dtype') == 'int64' \
+        else np.array([[float(v) for v in row] for row in X])
     args = arguments.UserArguments(sparsity_weight=0.1, iteration_limit=1, label_switching_cost=1.0,
                                    min_cluster_size=1, min_meaningful_covariance=0, num_clusters=K,
                                    num_processors=1, window_size=1, biased_covariance=True)
